@@ -26,6 +26,7 @@ import (
 	"crypto/md5"
 	"crypto/sha1"
 	"encoding/hex"
+	"errors"
 	"fmt"
 	"math/rand"
 	"os"
@@ -155,6 +156,12 @@ func vC07Time(rng *rand.Rand, now int64, rel string) int64 {
 	case "near":
 		return now + int64(rng.Intn(2))
 	}
+	switch rng.Intn(6) {
+	case 0: // anywhere up to the largest expiry the 8-digit field can hold
+		return now + 86400 + rng.Int63n(0xffffffff-now-86400+1)
+	case 1:
+		return []int64{0x7fffffff, 0x80000000, 0x80000001, 0xfffffffe, 0xffffffff}[rng.Intn(5)]
+	}
 	return now + 86400 + int64(rng.Intn(100000000))
 }
 
@@ -278,17 +285,29 @@ func vC07Rel(eprime int64, t0, t1 time.Time) string {
 }
 
 func vC07Res(err error) string {
-	switch err {
-	case nil:
+	switch {
+	case err == nil:
 		return "ok"
-	case ErrSignatureExpired:
+	case errors.Is(err, ErrSignatureExpired):
 		return "expired"
-	case ErrSignatureMissing:
+	case errors.Is(err, ErrSignatureMissing):
 		return "missing"
-	case ErrSignatureInvalid:
+	case errors.Is(err, ErrSignatureInvalid):
 		return "invalid"
 	}
-	return "other"
+	return "denied" // some other error: a refusal of unspecified class (reported as drift by the check)
+}
+
+// vC07SigHint finds the signature hint (+A<sig>@<exp>) of a locator, wherever it is placed.
+func vC07SigHint(loc string) (sig, exp string, ok bool) {
+	for _, h := range strings.Split(loc, "+")[1:] {
+		if strings.HasPrefix(h, "A") {
+			if i := strings.Index(h, "@"); i >= 0 {
+				return h[1:i], h[i+1:], true
+			}
+		}
+	}
+	return "", "", false
 }
 
 func vC07RunVerify(scn *vC07Scn, rng *rand.Rand) []map[string]interface{} {
@@ -356,16 +375,12 @@ func vC07RunVerify(scn *vC07Scn, rng *rand.Rand) []map[string]interface{} {
 	// the format clause: SignLocator against the reference
 	refsig, refexp := vC07RefSig(k1, h1, t1, e, ttl1)
 	signed := SignLocator(prefix, t1, time.Unix(e, 0), time.Duration(ttl1)*time.Second, k1)
-	ev := map[string]interface{}{"ev": "signloc", "prefixok": strings.HasPrefix(signed, prefix), "sigok": false, "expok": false, "out": signed}
-	gosig, goexp := "", ""
-	if strings.HasPrefix(signed, prefix+"+A") {
-		rest := signed[len(prefix)+2:]
-		if i := strings.Index(rest, "@"); i >= 0 {
-			gosig, goexp = rest[:i], rest[i+1:]
-			ev["sigok"] = gosig == refsig
-			ev["expok"] = goexp == refexp
-		}
-	}
+	// judged: the output carries a signature hint whose fields equal the reference; recorded only
+	// (drift): the hint is appended directly after the input locator
+	ev := map[string]interface{}{"ev": "signloc", "prefixok": strings.HasPrefix(signed, prefix+"+A"), "sigok": false, "expok": false, "out": signed}
+	gosig, goexp, _ := vC07SigHint(signed)
+	ev["sigok"] = gosig == refsig
+	ev["expok"] = goexp == refexp
 	events = append(events, ev)
 	// the locator under test is built from the reference signature or from the code's own one
 	src := "ref"
